@@ -82,7 +82,7 @@ fn main() {
         };
         writeln!(
             out,
-            "    FieldDef {{ id: {:?}, dt: {:?}, it: {:?}, len: {}, res: {}, res_src: {}, bias: {}, round: {}, cap: {}, inv: {}, has_ord: {}, dec: |b, o| dec_w(dfs::{}::decode, b, o), enc: |d, b, o| enc_w(dfs::{}::encode, d, b, o) }},",
+            "    FieldDef {{ id: {:?}, dt: {:?}, it: {:?}, len: {}, res: {}, res_src: {}, bias: {}, round: {}, cap: {}, inv: {}, has_ord: {}, dec: |b, o| dec_w(dfs::{}::decode, b, o), enc: |d, b, o| enc_w(dfs::{}::encode, d, b, o), dec_on: |p| dec_on_w(dfs::{}::decode, p), enc_on: |d, a| enc_on_w(dfs::{}::encode, d, a) }},",
             id,
             dt,
             it,
@@ -94,6 +94,8 @@ fn main() {
             optstr(&cap),
             opt(&inv, "i128"),
             ord.is_some(),
+            id,
+            id,
             id,
             id
         )
